@@ -600,6 +600,8 @@ MUTANTS = [
     M("crossover-different-symbols", _CX, "        nodes2 = parent2.find_all_nodes(symbol)\n", "        nodes2 = parent2.find_all_nodes(random.choice(list(common_symbols)))\n", "R01-d"),
 ]
 TWINS = [
+    M("twin-initial-population-start-positional", "src/fandango/evolution/algorithm.py", "                tree = self.grammar.parse(individual, start=self.start_symbol)\n", "                tree = self.grammar.parse(individual, self.start_symbol)\n", None),
+    M("twin-tag-reader-renamed-loop-var", _T, "                child.find_by_origin(node_id)\n                for child in [*self._children, *self._sources]\n", "                kid.find_by_origin(node_id)\n                for kid in [*self._children, *self._sources]\n", None),
     M("twin-guard-with-hoisted-lookup", "src/fandango/language/tree.py", "        if (\n            current_path in path_to_replacement\n            and self.symbol == path_to_replacement[current_path].symbol\n            and not self.read_only\n        ):\n            new_subtree = path_to_replacement[current_path].deepcopy(\n", "        replacement = path_to_replacement.get(current_path)\n        if (\n            replacement is not None\n            and replacement.symbol == self.symbol\n            and not self.read_only\n        ):\n            new_subtree = replacement.deepcopy(\n", None),
     M("twin-guard-reordered", _T, "            current_path in path_to_replacement\n            and self.symbol == path_to_replacement[current_path].symbol\n            and not self.read_only\n",
       "            current_path in path_to_replacement\n            and not self.read_only\n            and self.symbol == path_to_replacement[current_path].symbol\n", None),
